@@ -29,7 +29,7 @@ func (t CookieRequestTracker) TrackRequest(w http.ResponseWriter, r *http.Reques
 	trackedRequest := TrackedRequest{
 		Index:         base64.RawURLEncoding.EncodeToString(randomBytes(42)),
 		SAMLRequestID: samlRequestID,
-		URI:           r.URL.String(),
+		URI:           originalURI(r),
 	}
 
 	if t.RelayStateFunc != nil {
@@ -55,6 +55,19 @@ func (t CookieRequestTracker) TrackRequest(w http.ResponseWriter, r *http.Reques
 	})
 
 	return trackedRequest.Index, nil
+}
+
+// originalURI returns the URI of the request in a form that leads back to the same
+// resource when it is later used as a redirect target. The target of a request to
+// this server may be a path that begins with two slashes ("//example.com/x"); sent
+// back verbatim in a Location header a browser would read it as a network-path
+// reference to another host, so the leading slashes are collapsed into one.
+func originalURI(r *http.Request) string {
+	uri := r.URL.String()
+	if r.URL.Scheme == "" && r.URL.Host == "" && strings.HasPrefix(uri, "//") {
+		uri = "/" + strings.TrimLeft(uri, "/")
+	}
+	return uri
 }
 
 // StopTrackingRequest stops tracking the SAML request given by index, which is a string
